@@ -4,6 +4,7 @@ import (
 	"fmt"
 	"math/rand/v2"
 	"os"
+	"path/filepath"
 	"reflect"
 	"sort"
 	"strings"
@@ -617,6 +618,35 @@ func (p c09) Run(w *mon.Worker, idx int) mon.Result {
 					out.Repro = `printf 'a: 1\n' | yq '.a<TAB>| . + 1'   # prints 1 (key "a\t"), with a space: 2`
 				}
 				fails = append(fails, f)
+			}
+		}
+	}
+
+	// the same layout through the command line: an expression FILE means what its text means as an argument
+	if !w.Race && idx%8 == 5 {
+		r2 := rand.New(rand.NewPCG(uint64(idx), 0xc09f))
+		kind := []string{"comments", "mixed", "newlines"}[r2.IntN(3)]
+		text := gen.C09Render(minP.Toks, gen.C09Layout(r2, minP.Toks, kind))
+		if r2.IntN(3) == 0 {
+			text = strings.ReplaceAll(text, "\n", "\r\n")
+		}
+		dir := filepath.Join(w.Scratch, fmt.Sprintf("c09-%d", idx))
+		_ = os.MkdirAll(dir, 0o755)
+		ef, df := filepath.Join(dir, "e.yq"), filepath.Join(dir, "d.json")
+		_ = os.WriteFile(ef, []byte(text), 0o644)
+		_ = os.WriteFile(df, []byte(docs[0]+"\n"), 0o644)
+		fa := mon.Run(mon.RunOpts{Dir: dir}, w.YqBin(), "-p=json", "-o=json", "-I=0", "--from-file", ef, df)
+		ar := mon.Run(mon.RunOpts{Dir: dir}, w.YqBin(), "-p=json", "-o=json", "-I=0", "--expression", strings.ReplaceAll(text, "\r\n", "\n"), df)
+		cr.evals += 2
+		_ = os.RemoveAll(dir)
+		out.Variants["expression-file:"+kind] = text
+		if fa.TimedOut || ar.TimedOut {
+			tags["expression-file:timeout"] = true
+		} else {
+			tags["expression-file"] = true
+			if (fa.Exit == 0) != (ar.Exit == 0) || (fa.Exit == 0 && string(fa.Stdout) != string(ar.Stdout)) {
+				fails = append(fails, c09Fail{oracle: "O1/O2 expression file vs argument", detail: fmt.Sprintf("yq --from-file (exit %d): %s %s\n  yq --expression (exit %d): %s %s\n  text: %q",
+					fa.Exit, clipStr(string(fa.Stdout), 200), clipStr(string(fa.Stderr), 200), ar.Exit, clipStr(string(ar.Stdout), 200), clipStr(string(ar.Stderr), 200), text)})
 			}
 		}
 	}
